@@ -218,6 +218,21 @@ func c15Bytes(c *Ctx, in []byte, api string) {
 	c15BytesOne(c, in, api)
 }
 
+// c15JSONReaderExpect: a stream whose first byte after white space is '{' starts with a document; the reader
+// forms succeed iff encoding/json decodes that first value, and return it. (Streams that start with anything
+// else are documented to be scanned for the first '{'; no expectation is stated for them.)
+func c15JSONReaderExpect(in []byte) (string, map[string]interface{}) {
+	t := bytes.TrimLeft(in, " \t\r\n")
+	if len(t) == 0 || t[0] != '{' {
+		return "", nil
+	}
+	v, acc, _ := c06Ref(string(t), false)
+	if !acc {
+		return "bad", nil
+	}
+	return "ok", v
+}
+
 func c15BytesOne(c *Ctx, in []byte, api string) {
 	cas := func() interface{} { return c15Case{Kind: "bytes", Input: in, Text: string(in), API: api} }
 	c.S.Transitions++
@@ -226,6 +241,7 @@ func c15BytesOne(c *Ctx, in []byte, api string) {
 	var err error
 	encodeAfter := "" // "map" | "seq"
 	expect := ""      // "", "ok", "bad", "noroot"
+	var want map[string]interface{} // with "ok": the Map expected, when the reference defines one
 	st, pan := protect(func() {
 		switch api {
 		case "NewMapXml":
@@ -273,8 +289,10 @@ func c15BytesOne(c *Ctx, in []byte, api string) {
 			encodeAfter = "map"
 		case "NewMapJsonReader":
 			m, err = mxj.NewMapJsonReader(newHR(in))
+			expect, want = c15JSONReaderExpect(in)
 		case "NewMapJsonReaderRaw":
 			m, _, err = mxj.NewMapJsonReaderRaw(newHR(in))
+			expect, want = c15JSONReaderExpect(in)
 		case "HandleXmlReader":
 			err = mxj.HandleXmlReader(newHR(in), func(mm mxj.Map) bool { return true }, func(e error) bool { return true })
 			m = map[string]interface{}{}
@@ -309,6 +327,10 @@ func c15BytesOne(c *Ctx, in []byte, api string) {
 	case "ok":
 		if err != nil {
 			c.Violate(api, "rejects-what-the-tokenizer-accepts", shape, cas, nil, fmt.Sprintf("input=%q err=%v", in, err))
+			return
+		}
+		if want != nil && !deepEq(m, want) {
+			c.Violate(api, "value-differs-from-the-tokenizer", shape, cas, nil, fmt.Sprintf("input=%q result=%s, encoding/json reads the first document as %s", in, dump(m), dump(want)))
 			return
 		}
 	case "bad":
